@@ -558,6 +558,9 @@ def lammpstrj_reader(
     if reader_class.file_object is None:
         return trajectory, box
     for i, line in enumerate(iter(reader_class.file_object.readline, "")):
+        # a line without its newline is still being written
+        if not line.endswith("\n"):
+            return trajectory, box
         if i == 0 and line == "\n":
             # In case where newline wasn't written after we finished reading
             # the whole frame (except the newline characte) so the
